@@ -84,7 +84,7 @@ def same(a, b) -> bool:
     return False
 
 
-CONTEXTS = ["from_dict", "ctor_dict", "binding", "nixlist", "setitem_parsed", "setitem_nested", "scope_setitem", "setitem_overwrite", "setitem_overwrite_nested", "overwrite_after_render", "overwrite_after_failed_render"]
+CONTEXTS = ["from_dict", "ctor_dict", "binding", "nixlist", "setitem_parsed", "setitem_nested", "scope_setitem", "setitem_overwrite", "setitem_overwrite_nested", "overwrite_after_render", "overwrite_after_failed_render", "setitem_over_parsed"]
 
 
 def build(ctx, value, first=None):
@@ -133,6 +133,17 @@ def build(ctx, value, first=None):
         src["v"] = first if first is not None else {"old": 1, "gone": [1, 2]}
         src["n"]["v"] = first if first is not None else "old"
         src.rebuild()
+        src["v"] = value
+        src["n"]["v"] = value
+        return src, (lambda d: d["v"] if same(d["v"], d["n"]["v"]) else ["top and nested differ", d["v"], d["n"]["v"]])
+    if ctx == "setitem_over_parsed":
+        # the key already holds a value that came from the parser (string, int, list, set): nothing of it may survive
+        old = "\"old\"" if not isinstance(first, dict) else "{ k = 1; }"
+        if isinstance(first, list):
+            old = "[ 1 2 ]"
+        elif isinstance(first, (int, float)) and not isinstance(first, bool):
+            old = "7"
+        src = nima.parse("{\n  v = %s; # c\n  n = {\n    v = %s;\n  };\n}\n" % (old, old))
         src["v"] = value
         src["n"]["v"] = value
         return src, (lambda d: d["v"] if same(d["v"], d["n"]["v"]) else ["top and nested differ", d["v"], d["n"]["v"]])
@@ -364,7 +375,7 @@ def run_shard(sh):
         if feats & blocked_feats:
             sh.excluded += 1
             return
-        if "overwrite" not in ctx:
+        if "overwrite" not in ctx and ctx != "setitem_over_parsed":
             first = None
         case = {"ctx": ctx, "value": _encode(value), "first": _encode(first)}
         fails = judge(ctx, value, first)
